@@ -331,6 +331,28 @@ def run_case(case):
                 r.fail(f"rules/evd={evd}",
                        f"{expr} with rules {case['rules']}: got {ruled}, "
                        f"unruled result minus forbidden terms is {exp}")
+    # the operator-free product of the coefficient tensors alone (an empty
+    # operator string): its value is the product itself, and the rules
+    # remove it iff it holds an excluded block
+    if rules is not None and tens and not r.fails:
+        from ..model import einstein_target
+        tp = Mul(*tens)
+        if tp != 0:
+            tfree = einstein_target(tp)
+            exp_tp, hit_tp = ruled_terms(S(tp).expand(), case["rules"])
+            ok, got_tp = lib_call(r, "wicks_rules/operator_free", wicks, tp,
+                                  rules=rules)
+            if ok:
+                _, left = ruled_terms(S(got_tp).expand(), case["rules"])
+                m2 = Model(case["mseed"] + 77, 2, 2)
+                if left > 0 or not (evaluate(m2, got_tp, tfree) ==
+                                    evaluate(m2, exp_tp, tfree)).all():
+                    r.fail("rules/operator_free",
+                           f"wicks({tp}, rules={case['rules']}) = {got_tp}, "
+                           f"expected {exp_tp}")
+                r.cls("operator_free_with_rules")
+                if hit_tp:
+                    r.cls("operator_free_rule_hit")
     n_terms = len(Add.make_args(S(outs.get(False, 0)))) if outs.get(False, 0) != 0 else 0
     no_next_to_bare = any(g[0] == "no" for g in structure) and \
         any(g[0] == "op" for g in structure)
